@@ -224,6 +224,26 @@ func runApply(c C16ApplyCase) []vstat.Failure {
 			break
 		}
 	}
+	if len(fails) > 0 {
+		return fails
+	}
+	// the list as the proxy uses it: on a request and on a response carrying the same fields (possibly none at all), the
+	// whole list at once gives what its rules give one after the other
+	fresh := func() http.Header {
+		h := http.Header{}
+		for _, w := range c.Wire {
+			h.Add(w[0], w[1])
+		}
+		return h
+	}
+	req := &http.Request{Method: "GET", Header: fresh()}
+	if err := header.Headers(rules).ModifyRequest(req); err != nil || !reflect.DeepEqual(req.Header, hh) {
+		fails = append(fails, vstat.Failf("C16:apply:list:request", "the list %q applied to a request with fields %v gives %v (error %v), its rules one by one give %v", c.Rules, c.Wire, req.Header, err, hh))
+	}
+	res := &http.Response{StatusCode: 200, Header: fresh(), Request: &http.Request{Method: "GET", Header: http.Header{}}}
+	if err := header.Headers(rules).ModifyResponse(res); err != nil || !reflect.DeepEqual(res.Header, hh) {
+		fails = append(fails, vstat.Failf("C16:apply:list:response", "the list %q applied to a response with fields %v gives %v (error %v), its rules one by one give %v", c.Rules, c.Wire, res.Header, err, hh))
+	}
 	return fails
 }
 
